@@ -90,6 +90,41 @@ theorem martiniSystem_ok (tbl : List (Char × Char)) (pats : List (List Char × 
           obtain ⟨y, hy1, hy2⟩ := hi i x hx
           exact ⟨y, hy1, by simpa using hy2⟩
 
+theorem dsspAll_ok (sys : List (Bool × Mol2 × List Bool × List Nat)) (ms : List Mol2)
+    (h : dsspAll sys = .ok ms) :
+    ms.length = sys.length ∧
+      ∀ (i : Nat) (prot : Bool) (m : Mol2) (pos : List Bool) (ss : List Nat),
+        sys[i]? = some (prot, m, pos, ss) →
+        ∃ s, annotateDssp prot (srcMol m) pos ss = .ok s ∧ ms[i]? = some (withSrc m s) := by
+  induction sys generalizing ms with
+  | nil =>
+    simp [dsspAll] at h
+    subst h
+    simp
+  | cons x xs ih =>
+    obtain ⟨prot0, m0, pos0, ss0⟩ := x
+    unfold dsspAll at h
+    cases h1 : annotateDssp prot0 (srcMol m0) pos0 ss0 with
+    | error e => simp [h1] at h
+    | ok s0 =>
+      cases h2 : dsspAll xs with
+      | error e => simp [h1, h2] at h
+      | ok ms' =>
+        simp [h1, h2] at h
+        subst h
+        obtain ⟨hl, hi⟩ := ih ms' h2
+        refine ⟨by simp [hl], ?_⟩
+        intro i prot m pos ss hx
+        cases i with
+        | zero =>
+          simp at hx
+          obtain ⟨rfl, rfl, rfl, rfl⟩ := hx
+          exact ⟨s0, h1, by simp⟩
+        | succ i =>
+          simp at hx
+          obtain ⟨s, hs1, hs2⟩ := hi i prot m pos ss hx
+          exact ⟨s, hs1, by simpa using hs2⟩
+
 theorem withDst_dstMol (m : Mol2) : withDst m (dstMol m) = m := by
   induction m with
   | nil => rfl
